@@ -100,6 +100,11 @@ static void all_faults(int thorough) {
 		static const char *OVN[] = { "overwrite-00", "overwrite-FF", "overwrite-inc" };
 		for (int v = 0; v < 3; v++) { uint8_t x = v == 0 ? 0 : v == 1 ? 0xFF : (uint8_t)(seed[i] + 1); if (x == seed[i]) continue; memcpy(mut, seed, n); mut[i] = x; judge(OVN[v], i, tag, n, 0, 0); }
 		if (h_expired()) return; }
+	// every exchange of two whole Blocks (the Index is left as it is); only meaningful when the Blocks differ in size
+	if (seed_kind == FMT_XZ) { size_t bs[8], be[8]; int nbk = 0; for (int g = 0; g < so.nseg && nbk < 8; g++) { if (so.seg[g].tag == T_BH_SIZE) { if (nbk) be[nbk - 1] = so.seg[g].off; bs[nbk++] = so.seg[g].off; } else if (so.seg[g].tag == T_IDX_IND && nbk && so.seg[g].off > bs[nbk - 1]) { be[nbk - 1] = so.seg[g].off; if (so.seg[g].off >= first_len) break; } }
+		if (nbk >= 3 && first_len == so.len) for (int i = 0; i < nbk; i++) for (int j = i + 1; j < nbk; j++) { size_t li = be[i] - bs[i], lj = be[j] - bs[j]; if (li == lj) continue;
+			size_t p = 0; memcpy(mut, seed, bs[i]); p = bs[i]; memcpy(mut + p, seed + bs[j], lj); p += lj; memcpy(mut + p, seed + be[i], bs[j] - be[i]); p += bs[j] - be[i]; memcpy(mut + p, seed + bs[i], li); p += li; memcpy(mut + p, seed + be[j], n - be[j]); p += n - be[j];
+			if (p == n) judge("exchange-blocks", (size_t)(i * 8 + j), T_B_DATA, n, 0, 0); } }
 	if (thorough) {
 		// every 2-bit flip inside one header / index / footer field (same or adjacent byte), and every aligned 4-byte zeroing
 		for (size_t i = 0; i < n; i++) { int tag = rb_tag_at(&so, i); if (tag == T_B_DATA || tag == T_LZMA_DATA || tag == T_LZ_DATA) continue;
@@ -114,11 +119,14 @@ int main(int argc, char **argv) {
 	for (size_t i = 0; i < sizeof plain; i++) plain[i] = "abcabcabd-xyz"[i % 13] ^ (uint8_t)(i / 30);
 	long idx = 0;
 	// seeds: .xz x {crc32, crc64, sha256} x {1 Block, 2 Blocks, 2 Streams + padding, size fields}, .lzma x2, .lz x3
-	for (int si = 0; si < 18; si++) for (int reuse = 0; reuse < 2; reuse++) {
+	for (int si = 0; si < 19; si++) for (int reuse = 0; reuse < 2; reuse++) {
 		if (reuse && si >= 12) continue; if (reuse && !thorough && si % 4) continue;
 		if (idx++ % nsh != sh) continue;
 		rb_init(&so, seed, sizeof seed); plen = 0; first_len = 0; seed_has_check = 1; use_reused = reuse; seed_one_block = si < 12 && (si / 3 == 0 || si / 3 == 3); nocheck_end = 0;
-		if (si == 17) {	// a Stream with Check None followed (after padding) by a Stream with CRC64: what the first Stream lacks must not weaken the second
+		if (si == 18) {	// five Blocks of pairwise different sizes: structural damage (whole Blocks exchanged) must be caught by the Index comparison
+			seed_kind = FMT_XZ; ref_block b[5]; memset(b, 0, sizeof b); static const size_t L[5] = { 10, 14, 9, 17, 12 }; size_t at = 0; for (int i = 0; i < 5; i++) { b[i].data = plain + at; b[i].len = L[i]; at += L[i]; }
+			ref_xz_stream(&so, b, 5, 1, NULL); plen = at; first_len = so.len; snprintf(seed_name, sizeof seed_name, "xz:check1:5blocks"); }
+		else if (si == 17) {	// a Stream with Check None followed (after padding) by a Stream with CRC64: what the first Stream lacks must not weaken the second
 			seed_kind = FMT_XZ; ref_block b[2]; memset(b, 0, sizeof b); b[0].data = plain; b[0].len = 40; b[1].data = plain + 40; b[1].len = 25; b[1].dict_byte = 2;
 			ref_stream_opts o = { .padding_after = 8 }; ref_xz_stream(&so, &b[0], 1, 0, &o); first_len = so.len - 8; nocheck_end = first_len; ref_xz_stream(&so, &b[1], 1, 4, NULL); plen = 65;
 			snprintf(seed_name, sizeof seed_name, "xz:check0+check4:2streams+pad8"); }
